@@ -33,3 +33,5 @@ MANIFEST_TEXT['C12'] = dict(
     text='Coq theorems, for every capacity and every operation sequence: bounded queue never exceeds its capacity, full push is a no-op failure, push succeeds after a pop, FIFO refinement (accepted = popped ++ content as sequences), callback queue roll-back exact / panic unreachable / FIFO per id, pending-state laws; atomicity of every container method proved on the lock table regenerated from the Go AST. Tied to /repo by differential runs of the extracted models against the real structs (sequential sequences, and linearizability of recorded concurrent histories).',
     note='Trusted: Coq kernel + vm_compute, extraction, Go harness, the AST translator for the lock table. The generic step "atomic bodies => linearizable" is argued in DESIGN.md (M4) and exercised by the recorded-history search, not yet a Coq theorem. Endpoint-level "send on full queue is inert" is covered with C01.',
     technique='Coq proof (induction over operation sequences) + generated lock table + differential correspondence incl. linearizability search')
+
+PROPS['M1C'] = Prop('M1C', harness='m1c', entries=['m1c'], props_file='theories/Props/C20.v', quick_n=300, thorough_n=5000, design_ref='scratch')
